@@ -46,6 +46,7 @@ package query
 //@ func Parse
 //@   props C12
 //@   nopanic
+//@   opt inv_core=q,lists-fresh,lists-separate,sorting-done
 //@   ensures [result-or-error] (result == nil) == (err != nil)
 //@   check [search-from-tokens] err == nil ==> (forall j int :: { q.Search[j] } 0 <= j && j < len(q.Search) ==> (exists k int :: { tokens[k] } 0 <= k && k < len(tokens) && tokens[k].kind == tokenKindSearch && tokens[k].term == q.Search[j]))
 //@   check [tokens-in-search]   err == nil ==> (forall k int :: { tokens[k] } 0 <= k && k < len(tokens) && tokens[k].kind == tokenKindSearch ==> (exists j int :: { q.Search[j] } 0 <= j && j < len(q.Search) && tokens[k].term == q.Search[j]))
